@@ -40,7 +40,7 @@ META = {
                     "buffer family: content = k free bytes (0..255) followed by symbolic bytes assumed to be neither CR nor LF; CRLF framing"],
     "bounds": {"quick": {"forms": 8, "free_leading_bytes": 2, "tail_bytes": 14, "chunk_sizes": [1, 5]},
                "thorough": {"forms": 12, "free_leading_bytes": 3, "tail_bytes": 24, "chunk_sizes": [1, 3, 8]}},
-    "outside": ["contents with line breaks after the leading bytes (C01 covers exactness there)", "transport padding after the boundary",
+    "outside": ["contents with line breaks after the leading bytes other than the stated delimiter look-alike line (C01 covers exactness there)", "transport padding after a REAL delimiter (padding after a look-alike: job lookalike-padding, a recorded finding)",
                 "spooling of UploadFile to disk"],
     "expect_kinds": {"all": ["accepted", "413", "bounded"]},
 }
@@ -181,7 +181,20 @@ def job_buffer(job) -> report.JobResult:
         eng.solver.add(v >= 0, v <= (127 if kind == "field" else 255))
     for v in tail:
         eng.solver.add(v >= 0, v <= (127 if kind == "field" else 255), v != 10, v != 13)
+    if job.get("padding"):
+        # delimiter look-alike followed by blanks only (RFC 2046 "transport padding") and then an ordinary byte: still content
+        for v in tail[:-1]:
+            eng.solver.add(z3.Or(v == 32, v == 9))
+        eng.solver.add(tail[-1] == 120)
     mention = list(b"x--" + boundary) if job.get("mention") else []  # the boundary text in a NON-delimiter position (no line break before it)
+    if job.get("lookalike"):
+        # a line that starts like a delimiter -- <line break>--<boundary> -- but continues with two symbolic bytes that keep it from being one
+        # (no ASCII white space -- transport padding is outside this check; a '-' is not followed by a second '-'): still content, and everything after it must keep streaming
+        la = [z3.Int("la0"), z3.Int("la1")]
+        hi = 127 if kind == "field" else 255
+        eng.solver.add(la[0] >= 0, la[0] <= hi, la[1] >= 0, la[1] <= hi, *[la[0] != k for k in (9, 10, 11, 12, 13, 32)],
+                       z3.Implies(la[0] == 45, la[1] != 45))
+        mention = list({"lf": b"\n", "crlf": b"\r\n", "cr": b"\r"}[job["lookalike"]] + b"--" + boundary) + ([] if job.get("padding") else [SInt(v) for v in la])
     content = [SInt(v) for v in free] + mention + [SInt(v) for v in tail]
     part = C.Part(kind, "n", content, "f.bin" if kind == "file" else None)
     body = C.encode_form([part], boundary)
@@ -194,6 +207,8 @@ def job_buffer(job) -> report.JobResult:
     def fn():
         if not mention and SBytes(content).find(delim) != -1:
             raise cur()._raise(Pruned())
+        if job.get("lookalike") and SBytes(content[-(ntail + 2):]).find(delim) != -1:
+            raise cur()._raise(Pruned())  # the symbolic bytes after the look-alike must not spell the delimiter themselves
         worst = {"excess": None, "at": None}
 
         def observe(dec, chunk):
@@ -237,7 +252,10 @@ def job_buffer(job) -> report.JobResult:
             cp = concrete_buffer(wit)
         if klass is not None:
             lead = "CR" if cb[:1] == b"\r" else "LF" if cb[:1] == b"\n" else "other"
-            res.violation(f"C15/buffer/{klass}/leading-{lead}" if klass.startswith("buffer") else f"C15/buffer/{klass.split(':')[0]}", wit,
+            key = f"C15/buffer/{klass}/leading-{lead}" if klass.startswith("buffer") else f"C15/buffer/{klass.split(':')[0]}"
+            if klass.startswith("buffer") and job.get("padding"):
+                key = "C15/buffer/transport-padding-after-a-boundary-lookalike-is-held-back"
+            res.violation(key, wit,
                           f"{klass} {detail}; concrete: {cp}", (cp is not None) or twin)
             return
         res.kind("bounded")
@@ -288,6 +306,14 @@ def jobs(tier: str):
         for nfree in range(1, b["free_leading_bytes"] + 1):
             for cs in b["chunk_sizes"]:
                 out.append(dict(name=f"buffer/{part}/free{nfree}/chunk{cs}", kind="buffer", part=part, free=nfree, tail=b["tail_bytes"], chunk=cs, weight=4 ** nfree * 10))
+    for part in ("file", "field"):
+        for lb in ("lf", "crlf", "cr"):
+            for cs in b["chunk_sizes"]:
+                out.append(dict(name=f"buffer/{part}/lookalike-{lb}/chunk{cs}", kind="buffer", part=part, free=1, tail=b["tail_bytes"], chunk=cs, mention=True,
+                                lookalike=lb, weight=60))
+    for part in ("file", "field"):
+        out.append(dict(name=f"buffer/{part}/lookalike-padding/chunk1", kind="buffer", part=part, free=1, tail=b["tail_bytes"], chunk=1, mention=True,
+                        lookalike="crlf", padding=True, weight=30))
     for part in ("file", "field"):
         for cs in b["chunk_sizes"]:
             out.append(dict(name=f"buffer/{part}/mention/chunk{cs}", kind="buffer", part=part, free=1, tail=b["tail_bytes"], chunk=cs, mention=True, weight=40))
